@@ -42,6 +42,7 @@ func concFiles() map[string]string {
 		"assignint.tw":       "{{ v = 1 }}{{ w = [1, 2] }}int {{ v.pause() }}",
 		"assignstr.tw":       "{{ v = \"s\" }}{{ w = 2.5 }}str {{ v }}",
 		"readv.tw":           "read {{ v }}",
+		"badarg.tw":          "@use(\"~main\")@insert(\"title\", \"T\")@insert(\"body\")@each(i in items)@component(\"~card\", {t: [i, who], g: [gid, who.nofn()]})@end@end",
 		"floatdec.tw":        "@for(f = price; f > 1.0; f--)[{{ f }}]@end {{ price-- }} {{ price++ }} {{ price }} @each(p in [price, price - 1.0]){{ p-- }}{{ p.pause2() }},@end",
 		"assignlayout.tw":    "@use(\"~main\")@insert(\"title\", \"T\")@insert(\"body\"){{ v = true }}{{ v }}@end",
 	}
@@ -167,6 +168,20 @@ func concOps() []concOp {
 			out, err := textwire.EvaluateFile(filepath.Join(filepath.Dir(abs), "components", "card.tw"), d)
 			return fmt.Sprintf("out=%s err=%v", out, err)
 		}},
+		// long results of built-ins that differ from goroutine to goroutine through their data
+		{"EvaluateString(long built-in results)", false, func(tpl *textwire.Template, data map[string]any, abs string) string {
+			out, err := textwire.EvaluateString("{{ who.repeat(700 + gid) }}|{{ gid.decimal(\"-\", 1500 + gid) }}|{{ (who + \" \").repeat(300).trim().upper().len() }}|{{ who.repeat(600).reverse().len() }}", data)
+			return fmt.Sprintf("out=%s err=%v", out, err)
+		}},
+		// a failing element of an array literal, a failing argument of a call: the message names this goroutine's own fault
+		{"EvaluateString(failing element)", false, func(tpl *textwire.Template, data map[string]any, abs string) string {
+			who := fmt.Sprint(data["who"])
+			g, _ := data["gid"].(int)
+			src := []string{"{{ [1, missing_" + who + ", 3] }}", "{{ [gid, who.nofn_" + who + "()] }}", "{{ \"abc\".contains(1 / zero, missing_" + who + ") }}", "{{ [who, [1, gid + who]] }}", "{{ true.then(1, [2, 3 - who]) }}"}[g%5]
+			out, err := textwire.EvaluateString(src, data)
+			return fmt.Sprintf("out=%s err=%v", out, err)
+		}},
+		{"Response(failing element in a component argument)", false, resp("badarg")},
 		// built-ins on short strings outside ASCII, different for every goroutine
 		{"EvaluateString(string built-ins)", false, func(tpl *textwire.Template, data map[string]any, abs string) string {
 			out, err := textwire.EvaluateString("{{ label.reverse() }}|{{ label.upper() }}|{{ label.capitalize() }}|{{ label.at(1) }}|{{ label.truncate(3) }}|{{ (label + who).reverse() }}|{{ label.split(\"\").join(\"-\") }}|{{ label.len() }}", data)
